@@ -16,7 +16,7 @@ def purity(chk, c, rule, entries, what):
     reach = cg.reachable_cs(entries, stop=lambda fq: fq == ce.qualname)
     creators = sorted(f for f in cg.callers.get(ce.qualname, ()) if f in reach)
     for fq in creators:
-        ok = fq == 'core.ElementProxy.__getattr__'     # shadow-channel creation on navigation (lemmas of C11)
+        ok = fq in tf.lazy_creators(c)     # shadow-channel creation on navigation (lemmas of C11): traversal_parent=True only
         chk.ob(rule, '%s may create an element during %s' % (fq, what), ok,
                '' if ok else 'an observation can create elements outside the shadow channel; call chain: %s' % ' ; '.join(
                    cg.path_to(fq)[-5:]), ix.functions[fq].loc, key='%s|creator|%s' % (rule, fq))
@@ -69,7 +69,8 @@ def run(chk):
         for n_ in own_nodes(fi.node):
             if isinstance(n_, ast.Attribute) and n_.attr in ('traversal_indexes', 'traversal_list'):
                 ns += 1
-                table = c10.SHADOW_READERS if n_.attr == 'traversal_indexes' else c10.TRAVERSAL_LIST_USERS
+                table = c10.SHADOW_READERS if n_.attr == 'traversal_indexes' else \
+                    set(c10.TRAVERSAL_LIST_USERS) | tf.lazy_creators(c)
                 ok = fq in table
                 chk.ob('C04-S', '%s reads %s' % (fq, n_.attr), ok,
                        '' if ok else 'validate() reaches a function that looks at shadow children: after a mere read below a missing '
@@ -115,17 +116,78 @@ def run(chk):
     g_ok = True
     # `return True` must come after the raise guard
     chk.ob('C04-V', 'without errors the raising form returns True', ok, '', vv.loc, key='C04-V|return-true')
-    # report branches: two siblings (file-like / path) iterate L then W with equal templates
-    loops = [n_ for n_ in own_nodes(vv.node) if isinstance(n_, ast.For) and norm(n_.iter) in (L, Wn)]
-    sig = {}
-    for lp in loops:
-        b = branch_context(lp)
-        tmpl = [x.value for x in ast.walk(lp) if isinstance(x, ast.Constant) and isinstance(x.value, str) and '{}' in x.value]
-        sig.setdefault(b, []).append((norm(lp.iter), tuple(tmpl)))
-    branches = list(sig.values())
-    ok = len(branches) == 2 and branches[0] == branches[1] and [i for i, _ in branches[0]] == [L, Wn]
+    # report writing: wherever lines are written (validate itself, or a closure called with the two lists), a block writes the
+    # errors first, then the warnings, with one template each; both ways of writing (file object / path) reach such a block
+    def line_template(loop):
+        out = []
+        for x in ast.walk(loop):
+            if isinstance(x, ast.JoinedStr):
+                out.append(''.join(v.value if isinstance(v, ast.Constant) else '{}' for v in x.values))
+            elif isinstance(x, ast.Constant) and isinstance(x.value, str) and ('{}' in x.value or '%s' in x.value):
+                out.append(x.value.replace('%s', '{}'))
+        return tuple(out)
+
+    def report_blocks(fnode, roles):
+        """roles: local name -> 'E' / 'W'.  -> [(block statements, [(role, templates)])] for every statement list with loops"""
+        res = []
+        for n in own_nodes(fnode) if not isinstance(fnode, list) else ():
+            pass
+        stack = [fnode.body]
+        while stack:
+            blk = stack.pop()
+            seq = []
+            for st_ in blk:
+                if isinstance(st_, (ast.FunctionDef, ast.ClassDef)):
+                    continue
+                if isinstance(st_, ast.For) and norm(st_.iter) in roles:
+                    seq.append((roles[norm(st_.iter)], line_template(st_)))
+                for fld in ('body', 'orelse', 'finalbody'):
+                    sub = getattr(st_, fld, None)
+                    if isinstance(sub, list) and sub and isinstance(sub[0], ast.stmt):
+                        stack.append(sub)
+                for h in getattr(st_, 'handlers', []) or []:
+                    stack.append(h.body)
+            if seq:
+                res.append((blk, seq))
+        return res
+    blocks = report_blocks(vv.node, {L: 'E', Wn: 'W'})
+    writers = {}      # closure name -> its block signature
+    for name_, f2 in vv.nested.items():
+        calls_ = [n_ for n_ in own_nodes(vv.node) if isinstance(n_, ast.Call) and isinstance(n_.func, ast.Name) and n_.func.id == name_]
+        if not calls_:
+            continue
+        params_ = [a_.arg for a_ in f2.node.args.args]
+        roles_ = {}
+        consistent = True
+        for cl in calls_:
+            for i_, a_ in enumerate(cl.args):
+                if i_ < len(params_) and norm(a_) in (L, Wn):
+                    r_ = 'E' if norm(a_) == L else 'W'
+                    if roles_.get(params_[i_], r_) != r_:
+                        consistent = False
+                    roles_[params_[i_]] = r_
+        if roles_ and consistent:
+            bl = report_blocks(f2.node, roles_)
+            if bl:
+                writers[name_] = bl
+    sigs = [tuple(seq) for _, seq in blocks]
+    for name_, bl in writers.items():
+        sigs += [tuple(seq) for _, seq in bl]
+    good_sig = len(set(sigs)) == 1 and sigs and [r_ for r_, _ in sigs[0]] == ['E', 'W'] and \
+        all(len(t_) == 1 for _, t_ in sigs[0]) and sigs[0][0][1] != sigs[0][1][1]
+    # both ways of writing reach a writer: the handler of AttributeError (path given) and the else branch (file object given)
+    ways = []
+    for n_ in own_nodes(vv.node):
+        if isinstance(n_, ast.Try) and any(h.type is not None and 'AttributeError' in norm(h.type) for h in n_.handlers):
+            for part in ([h.body for h in n_.handlers] + [n_.orelse]):
+                has = any(blk is part or any(blk is getattr(x, 'body', None) for st_ in part for x in ast.walk(st_))
+                          for blk, _ in blocks) or \
+                    any(isinstance(x, ast.Call) and isinstance(x.func, ast.Name) and x.func.id in writers
+                        for st_ in part for x in ast.walk(st_))
+                ways.append(has)
+    ok = good_sig and len(ways) == 2 and all(ways)
     chk.ob('C04-V', 'both report branches list the errors then the warnings with the same templates', ok,
-           'branches: %s' % branches, vv.loc, key='C04-V|report-file')
+           'writer signatures: %s; ways reaching a writer: %s' % (sorted(set(sigs))[:3], ways), vv.loc, key='C04-V|report-file')
 
     # ---- R
     closures = sorted(k for k in vv.nested if k.startswith('_check_'))
